@@ -263,8 +263,184 @@ fn solve_once(solver: &mut Solver<Uni>, prob: &Value, want_dump: bool) -> Value 
     out
 }
 
+// ---------------------------------------------------------------------------------------------------------
+// C10: asynchronous provider whose outstanding requests complete in an order chosen by a schedule
+// ---------------------------------------------------------------------------------------------------------
+struct Sched {
+    pending: RefCell<Vec<u64>>,
+    done: RefCell<Vec<u64>>,
+    next_id: std::cell::Cell<u64>,
+    rng: std::cell::Cell<u64>,
+    policy: u8, // 0 oldest first, 1 newest first, >= 2 pseudo-random with seed `policy`
+    max_in_flight: std::cell::Cell<usize>,
+    completions: std::cell::Cell<usize>,
+    wakers: RefCell<Vec<(u64, std::task::Waker)>>,
+}
+impl Sched {
+    fn new(policy: u8) -> Self {
+        Sched {
+            pending: RefCell::new(Vec::new()),
+            done: RefCell::new(Vec::new()),
+            next_id: std::cell::Cell::new(0),
+            rng: std::cell::Cell::new(0x9E3779B97F4A7C15u64.wrapping_mul(policy as u64 + 1)),
+            policy,
+            max_in_flight: std::cell::Cell::new(0),
+            completions: std::cell::Cell::new(0),
+            wakers: RefCell::new(Vec::new()),
+        }
+    }
+    /// completes one outstanding request; false if there is none
+    fn complete_one(&self) -> bool {
+        let mut p = self.pending.borrow_mut();
+        if p.is_empty() {
+            return false;
+        }
+        self.max_in_flight.set(self.max_in_flight.get().max(p.len()));
+        let idx = match self.policy {
+            0 => 0,
+            1 => p.len() - 1,
+            _ => {
+                let mut x = self.rng.get();
+                x ^= x << 13;
+                x ^= x >> 7;
+                x ^= x << 17;
+                self.rng.set(x);
+                (x % p.len() as u64) as usize
+            }
+        };
+        let id = p.remove(idx);
+        drop(p);
+        self.done.borrow_mut().push(id);
+        self.completions.set(self.completions.get() + 1);
+        // wake the task that waits for this request (FuturesUnordered only re-polls woken tasks)
+        let ws: Vec<std::task::Waker> = {
+            let mut w = self.wakers.borrow_mut();
+            let (mine, rest): (Vec<_>, Vec<_>) = w.drain(..).partition(|(i, _)| *i == id);
+            *w = rest;
+            mine.into_iter().map(|(_, w)| w).collect()
+        };
+        for w in ws {
+            w.wake();
+        }
+        true
+    }
+}
+struct Gate {
+    id: Option<u64>,
+    sched: std::rc::Rc<Sched>,
+}
+impl std::future::Future for Gate {
+    type Output = ();
+    fn poll(mut self: std::pin::Pin<&mut Self>, cx: &mut std::task::Context<'_>) -> std::task::Poll<()> {
+        match self.id {
+            None => {
+                let id = self.sched.next_id.get();
+                self.sched.next_id.set(id + 1);
+                self.sched.pending.borrow_mut().push(id);
+                self.sched.wakers.borrow_mut().push((id, cx.waker().clone()));
+                self.id = Some(id);
+                std::task::Poll::Pending
+            }
+            Some(id) => {
+                if self.sched.done.borrow().contains(&id) {
+                    std::task::Poll::Ready(())
+                } else {
+                    self.sched.wakers.borrow_mut().push((id, cx.waker().clone()));
+                    std::task::Poll::Pending
+                }
+            }
+        }
+    }
+}
+struct AsyncUni {
+    uni: Uni,
+    sched: std::rc::Rc<Sched>,
+}
+impl AsyncUni {
+    fn gate(&self) -> Gate {
+        Gate { id: None, sched: self.sched.clone() }
+    }
+}
+impl Interner for AsyncUni {
+    fn display_solvable(&self, s: SolvableId) -> impl Display + '_ {
+        self.uni.display_solvable(s)
+    }
+    fn display_name(&self, name: NameId) -> impl Display + '_ {
+        self.uni.display_name(name)
+    }
+    fn display_version_set(&self, vs: VersionSetId) -> impl Display + '_ {
+        self.uni.display_version_set(vs)
+    }
+    fn display_string(&self, s: StringId) -> impl Display + '_ {
+        self.uni.display_string(s)
+    }
+    fn version_set_name(&self, vs: VersionSetId) -> NameId {
+        self.uni.version_set_name(vs)
+    }
+    fn solvable_name(&self, s: SolvableId) -> NameId {
+        self.uni.solvable_name(s)
+    }
+    fn version_sets_in_union(&self, u: VersionSetUnionId) -> impl Iterator<Item = VersionSetId> {
+        self.uni.version_sets_in_union(u)
+    }
+}
+impl DependencyProvider for AsyncUni {
+    async fn filter_candidates(&self, candidates: &[SolvableId], vs: VersionSetId, inverse: bool) -> Vec<SolvableId> {
+        self.uni.filter_candidates(candidates, vs, inverse).await
+    }
+    async fn get_candidates(&self, name: NameId) -> Option<Candidates> {
+        self.uni.calls.borrow_mut().push((5, name.0)); // request issued
+        self.gate().await;
+        self.uni.get_candidates(name).await
+    }
+    async fn sort_candidates(&self, _solver: &SolverCache<Self>, solvables: &mut [SolvableId]) {
+        if solvables.is_empty() {
+            return;
+        }
+        let rank = &self.uni.pkgs[self.uni.solv_name[solvables[0].0 as usize] as usize].rank;
+        solvables.sort_by_key(|s| rank.iter().position(|&r| r == s.0).unwrap_or(usize::MAX));
+    }
+    async fn get_dependencies(&self, solvable: SolvableId) -> Dependencies {
+        self.uni.calls.borrow_mut().push((6, solvable.0)); // request issued
+        self.gate().await;
+        self.uni.get_dependencies(solvable).await
+    }
+}
+struct SchedRuntime(std::rc::Rc<Sched>);
+impl resolvo::runtime::AsyncRuntime for SchedRuntime {
+    fn block_on<F: std::future::Future>(&self, f: F) -> F::Output {
+        let mut f = std::pin::pin!(f);
+        let mut cx = std::task::Context::from_waker(std::task::Waker::noop());
+        loop {
+            if let std::task::Poll::Ready(v) = f.as_mut().poll(&mut cx) {
+                return v;
+            }
+            if !self.0.complete_one() {
+                panic!("deadlock: the solver is pending but no provider request is outstanding");
+            }
+        }
+    }
+}
+
+fn async_solves(v: &Value, prob: &Value, policies: &[u8]) -> Value {
+    let mut outs = Vec::new();
+    for &policy in policies {
+        let sched = std::rc::Rc::new(Sched::new(policy));
+        let provider = AsyncUni { uni: Uni::from_json(v), sched: sched.clone() };
+        let mut solver = Solver::new(provider).with_runtime(SchedRuntime(sched.clone()));
+        let mut o = solve_simple(&mut solver, prob);
+        let calls = solver.provider().uni.calls.borrow();
+        o["calls"] = json!(calls.iter().map(|c| json!([c.0, c.1])).collect::<Vec<_>>());
+        o["policy"] = json!(policy);
+        o["max_in_flight"] = json!(sched.max_in_flight.get());
+        o["completions"] = json!(sched.completions.get());
+        outs.push(o);
+    }
+    json!(outs)
+}
+
 /// verdict + solution only (used for the snapshot provider, C16)
-fn solve_simple<D: DependencyProvider>(solver: &mut Solver<D>, prob: &Value) -> Value {
+fn solve_simple<D: DependencyProvider, RT: resolvo::runtime::AsyncRuntime>(solver: &mut Solver<D, RT>, prob: &Value) -> Value {
     let reqs: Vec<Requirement> = prob["req"].as_array().unwrap().iter().map(req_of).collect();
     let cons: Vec<VersionSetId> = u32s(&prob["con"]).into_iter().map(VersionSetId).collect();
     let problem = Problem::new().requirements(reqs).constraints(cons);
@@ -354,6 +530,10 @@ fn main() {
             outs.push(solve_once(&mut solver, p, want_dump));
         }
         let mut out = json!({"id": v["id"], "solves": outs});
+        if v["async_policies"].is_array() {
+            let pol: Vec<u8> = u32s(&v["async_policies"]).into_iter().map(|x| x as u8).collect();
+            out["async"] = async_solves(&v, &problems[0], &pol);
+        }
         if v["snapshot"].as_bool().unwrap_or(false) {
             out["snapshot"] = snapshot_solves(&v, &problems[0]);
         }
